@@ -241,6 +241,12 @@ def gen_type_lemmas(meta):
         L("inv", reals(A), [], [f"{m('inv', p, [A])} == {m('recip', p, [A])}" for p in outs], ["C08"], "inv == recip")
     if have("from"):
         L("from", "f: real", [], [f"{m('from', p, [], ['f'])} == {c}" for p, c in zip(G.leaves, C) if p in outs], ["C08", "C07"], "From<F> lifts to a constant (absent = zero parts)")
+    # FloatConst: each named constant is the scalar constant of the same name lifted to a constant dual number
+    import prelude as _pre
+    for cn in _pre.CONSTS:
+        if have(cn):
+            cj = G.const(f"c_{cn}()")
+            L(cn, "", [], [f"{m(cn, p, [])} == {c}" for p, c in zip(G.leaves, cj) if p in outs], ["C08", "C11", "C07"], f"FloatConst::{cn}() is the scalar constant {cn} lifted to a constant (zero / absent derivative parts)")
     if have("zero"):
         L("zero", "", [], [f"{m('zero', p, [])} == 0real" for p in outs], ["C08", "C07"], "zero")
     if have("one"):
